@@ -257,4 +257,23 @@ theorem sentence_of_leaves_perm (t t' : Tree) (hp : t'.leaves.Perm t.leaves) (hn
   unfold sentence
   rw [terminals_of_leaves_perm t t' hp hn]
 
+/-! ### concrete instances: the hypotheses are satisfiable on a discontinuous tree -/
+
+/-- `(S (VP w1 w3) w2)` -/
+private def exT : Tree := node {} [node {} [leaf 3 {}, leaf 1 {}], leaf 2 {}]
+/-- the same tokens, other storage order and bracketing -/
+private def exT' : Tree := node {} [leaf 2 {}, node {} [leaf 1 {}, node {} [leaf 3 {}]]]
+
+example : WF exT = true := by decide
+example : exT.leafNums = [3, 1, 2] ∧ yield exT = [1, 2, 3] := by decide
+example : exT.noEmpty = true ∧ exT.leafNums.Nodup := by decide
+example : sibDistinct exT = true := sibDistinct_of_nodup exT (by decide) (by decide)
+example : leftmost exT = 1 ∧ rightmost exT = 3 ∧ minLeaf exT = 1 := by decide
+example : exT'.leafNums.Perm exT.leafNums ∧ exT'.noEmpty = true ∧ exT'.isLeaf = false := by decide
+example : WF exT' = true := WF_of_perm exT exT' (by decide) (by decide) (by decide) (by decide)
+example : sentence exT' = sentence exT :=
+  sentence_of_leaves_perm exT exT'
+    (show ([leaf 3 {}, leaf 1 {}, leaf 2 {}] : List Tree).reverse.Perm _ from List.reverse_perm _)
+    (by decide)
+
 end TT.Lemmas.WF
